@@ -1,10 +1,11 @@
 """Free-text parts of MANIFEST.json."""
 HOOK_COMMITS = ["c7c6a9f"]
+FIX_COMMITS = ["e44ed8e", "9e8cd65", "2f294a3", "7529dc9", "48b06b7", "21a1bed", "47b50c4", "35f944d"]
 NOTES = ("Runtime monitoring only: every check executes the real code of /repo under seeded workloads and decides with an oracle "
          "over what was observed. VERIF_SEED changes every random choice; VERIF_TIER overrides the tier. Exit 2 = build/harness failure "
          "(never a VIOLATION line). Known findings: /verif/known_findings.json. See DESIGN.md.")
 ENGINES = [
-    {"name": "vmux", "path": "harness/mux", "serves_properties": ["C02", "C03", "C04", "C05", "C09", "C18", "C20"],
+    {"name": "vmux", "path": "harness/mux", "serves_properties": ["C02", "C03", "C04", "C05", "C06", "C07", "C08", "C09", "C11", "C15", "C16", "C18", "C20"],
      "kind_free_text": "Rust harness over penguin-mux/cow-bytes/penguin-socks: PURE differential monitors, SIM (tokio current-thread, paused clock, in-memory WebSocket with wire tap and fault plan), THR, MICRO, Miri"},
 ]
 NOT_APPLICABLE = {}
@@ -61,5 +62,47 @@ TEXT = {
         "design_ref": "DESIGN.md §4 C05, appendix A",
         "level_text": "Every read-EOF, write result and shutdown of every execution is checked against the reference model (EOF only after peer finish/abort/connection end and after all bytes of a clean shutdown; BrokenPipe after local shutdown or delivered peer Reset; opposite direction keeps working). Exploration.",
         "level_note": "The 'write after delivered Reset must fail' rule relies on SIM's single thread (log order == execution order).",
+    },
+    "C06": {
+        "engine": "vmux (SIM)",
+        "technique": "offline history checker + invariant probe at quiescent points (flow-table accessor hook) over abort scenarios and long open/close cycles with scripted id re-use",
+        "design_ref": "DESIGN.md §4 C06, appendix A",
+        "level_text": "Abort semantics (delivered-then-EOF, BrokenPipe afterwards), bystander integrity and the leak clause are checked on every execution; cycle runs open/close up to 400 streams in every close order with bystanders and re-issue freed ids through a scripted RNG. Exploration.",
+        "level_note": "Leak probe needs the add-only accessor hook; immediate re-use with frames of the old incarnation in flight is deliberately not demanded.",
+    },
+    "C07": {
+        "engine": "vmux (SIM)",
+        "technique": "runtime monitor over executions with scripted RNGs (forced id 0 / live ids / simultaneous identical choices) and a scripted raw peer (Reset of the first k Connects, Connect with id 0 / in-use id)",
+        "design_ref": "DESIGN.md §4 C07, appendix A",
+        "level_text": "Per request: Connect frames on the tap are counted and matched to the outcome (success iff acknowledged, FlowIdRejected after exactly R resets, never more than R attempts, never id 0 or a live id); target bytes and initial credit are compared on both sides, the latter also black-box. Exploration.",
+        "level_note": "Trusted: reference codec on the tap; collisions are forced through the scripted RNG rather than awaited from chance.",
+    },
+    "C08": {
+        "engine": "vmux (SIM)",
+        "technique": "fault enumeration over recorded executions: one re-execution per (message index, fault kind); pending-operation outcome oracle; flush-on-drop order oracle",
+        "design_ref": "DESIGN.md §4 C08, appendix A",
+        "level_text": "For every message index of every base execution and each of 8 fault kinds the real endpoint is re-run with the fault injected at that point; the run must reach quiescence with nothing pending and with outcomes from DESIGN appendix A.3. Drop-flush runs compare queued vs delivered frames. Enumeration of crash points over explored executions, not of all executions.",
+        "level_note": "Base executions are sampled (seeded); the cut is at message granularity of the endpoint's WebSocket, not inside a frame.",
+    },
+    "C11": {
+        "engine": "vmux (SIM)",
+        "technique": "offline history checker for datagrams (identity, at-most-once, order, loss licence from buffer occupancy) with concurrent stream monitors",
+        "design_ref": "DESIGN.md §4 C11, appendix A",
+        "level_text": "Every received datagram is matched to the send it came from; losses are bounded by arrivals at a full buffer computed from the event order; over-long hosts must be refused without a trace on the wire; the connection task must stay alive and concurrent streams uncorrupted and unblocked. Exploration.",
+        "level_note": "The occupancy model is an upper bound of the real buffer occupancy, so the loss bound is sound (never stricter than the statement).",
+    },
+    "C15": {
+        "engine": "vmux (SIM)",
+        "technique": "offline history checker matching each bind result to the peer application's decision for that very request; scripted-RNG id re-use",
+        "design_ref": "DESIGN.md §4 C15, appendix A",
+        "level_text": "Each request's result is compared with the logged decision (accept/reject/drop/never/binds disabled), the fields and flow id shown to the peer with the request, and ids are re-issued immediately after resolution and at quiescent points. Exploration.",
+        "level_note": "Requests are matched by unique port; the responder logs its decision before replying.",
+    },
+    "C16": {
+        "engine": "vmux (SIM)",
+        "technique": "runtime monitor on virtual timestamps of the wire tap: ping schedule, timeout bounds, pending-operation outcomes; (I,T) grid enumerated",
+        "design_ref": "DESIGN.md §4 C16, appendix A",
+        "level_text": "All (I,T) pairs of the grid x 6 pong-script kinds are executed in virtual time against a scripted raw peer; Ping times must be exactly k*I, a timeout needs >= T' of silence and must come within T'+I of the last pong for a silent peer, answered-in-time and disabled runs reach a 2000-interval horizon, and after the timeout every pending operation resolves.",
+        "level_note": "Virtual time makes the bounds exact; delays inside the grid cells are seeded samples.",
     },
 }
